@@ -2,7 +2,7 @@
 element ids); every case is rendered for concrete element kinds (several spellings per element) and run on the
 real interpreter.  Compared: the stored elements as a set, pairwise inequality of stored elements, element kind,
 reported size, relation/membership results."""
-import collections
+import re, collections
 from fractions import Fraction
 import tlc, execpool, absval
 from core import log
@@ -12,6 +12,7 @@ PROP = "C14"
 # ------------------------------------------------------------------------------------------ element kinds
 # TupleOf / nested-set tables mirror spec/MC_C14.tla (TupleOf) for ids 1..6
 TUPLE_OF = [(1, 2), (2, 1), (2, 3), (3, 3), (3, 1), (1, 1)]
+MIX_OF = [(1,), (1, 2), (3,), (1, 2, 3), (2, 3), (4,)]      # nested sets of DIFFERENT cardinality
 PAIR_OF = [(1, 2), (1, 3), (2, 3), (1, 4), (2, 4), (3, 4)]
 STRINGS = ["", "a", "b", "ab", "a b", "B"]
 
@@ -19,8 +20,10 @@ def num(kind, f): return ('num', kind, Fraction(f))
 
 class Kind:
     """concrete element kind: value(i) canonical value of id i, spell(i) list of source spellings (all equal by ==)"""
-    def __init__(self, name, el, n=6, ord_=False, num_=False, eq=False, mat=None, flagged=None, affine=None):
+    def __init__(self, name, el, n=6, ord_=False, num_=False, eq=False, mat=None, flagged=None, affine=None, union_built=False):
         self.name = name; self.el = el; self.n = n; self.ord = ord_; self.num = num_; self.eq = eq
+        self.union_built = union_built   # elements of different cardinality: a literal rejects them, the set is built by unions of singletons;
+                                         # kind strings are compared with the cardinalities erased
         self.mat = mat            # None | 'lit' (typed literals in a matrix literal) | 'conv' (x<[K]:r,c> := f64 literal)
         self.flagged = flagged    # name of the known equal-but-kept-twice family this kind can exhibit
         self.affine = affine      # (a0, b0): value(i) = a0 + b0*(i-1) for numeric kinds
@@ -39,6 +42,7 @@ def kind_value(k, i):
     if n == "tupus":
         return ('tup', (num('u8', [1, 2, 1, 2, 3, 3][i - 1]), ('str', "aabbab"[i - 1])))
     if n in ("set", "setr"): return ('set', frozenset(num('f64', p) for p in PAIR_OF[i - 1]))
+    if n == "setmix": return ('set', frozenset(num('f64', p) for p in MIX_OF[i - 1]))
     raise ValueError(n)
 
 def kind_spell(k, i):
@@ -71,6 +75,9 @@ def kind_spell(k, i):
     if n == "set":
         p, q = PAIR_OF[i - 1]
         return [f"{{{p},{q}}}", f"{{{p},{q},{p}}}", f"{{{p}.0, {q}}}"]     # same insertion order, repeats inside
+    if n == "setmix":
+        m = MIX_OF[i - 1]
+        return ["{" + ",".join(str(p) for p in m) + "}", "{" + ", ".join(f"{p}.0" for p in m) + "}"]
     if n == "setr":
         p, q = PAIR_OF[i - 1]
         return [f"{{{p},{q}}}", f"{{{q},{p}}}"]                            # the same set written in the other order
@@ -88,11 +95,12 @@ KINDS = {k.name: k for k in [
     Kind("tupus", "(u8,string)"),
     Kind("set", "{f64}:2"),
     Kind("setr", "{f64}:2", flagged="set:order"),
+    Kind("setmix", "{f64}", union_built=True),
     Kind("u64", "u64", ord_=True, num_=True, eq=True, mat='lit', affine=(1, 1)),
     Kind("i8", "i8", ord_=True, num_=True, eq=True, mat='conv', affine=(-3, 2)),
     Kind("f32", "f32", ord_=True, num_=True, eq=True, mat='lit', affine=(Fraction(-3, 2), Fraction(3, 2))),
 ]}
-QUICK_KINDS = ["f64", "f64z", "u8", "i64", "r64", "string", "bool", "tup", "tupus", "set", "setr"]
+QUICK_KINDS = ["f64", "f64z", "u8", "i64", "r64", "string", "bool", "tup", "tupus", "set", "setr", "setmix"]
 THOROUGH_KINDS = QUICK_KINDS + ["u64", "i8", "f32"]
 
 SYM = {"union": "∪", "inter": "∩", "diff": "∖", "sym": "Δ", "sub": "⊆", "sup": "⊇", "psub": "⊊", "psup": "⊋"}
@@ -124,9 +132,15 @@ def kind_of(v):
     if t == 'set': return "{" + v[1] + "}" + (f":{v[2]}" if v[2] else "")
     return t
 
-def check_set(ev, want, elkind):
-    """-> None | (failure class, text).  want: collection of canonical values; elkind: expected element kind string"""
+def _erase_sizes(k): return re.sub(r":\d+", "", k or "")
+
+def check_set(ev, want, elkind, loose=False):
+    """-> None | (failure class, text).  want: collection of canonical values; elkind: expected element kind string;
+    loose: cardinalities inside kind strings are not compared (sets of sets of different cardinality)"""
     got = absval.absval(ev["v"])
+    if loose:
+        r = check_set_loose(got, want, elkind, ev)
+        return r
     if got[0] != 'set':
         return ("not-a-set", f"is {absval.short(got)}")
     els = got[3]
@@ -145,6 +159,19 @@ def check_set(ev, want, elkind):
             return ("declared-kind", f"declares element kind {got[1]}, expected {elkind}")
         if ev.get("k") != f"{{{elkind}}}:{len(els)}":
             return ("kind-string", f"has kind {ev.get('k')}, expected {{{elkind}}}:{len(els)}")
+    return None
+
+def check_set_loose(got, want, elkind, ev):
+    if got[0] != 'set': return ("not-a-set", f"is {absval.short(got)}")
+    els = got[3]; cs = [canon(e) for e in els]
+    if len(set(cs)) != len(cs): return ("duplicates", f"stores two equal elements: {absval.short(got)}")
+    if set(cs) != set(want): return ("elements", f"= {absval.short(got)}, expected the {len(set(want))} element(s) {sorted_short(want)}")
+    if got[2] != len(els): return ("size", f"reports size {got[2]} but holds {len(els)} element(s)")
+    if els:
+        for e in els:
+            if _erase_sizes(kind_of(e)) != _erase_sizes(got[1]):
+                return ("element-kind", f"declares element kind {got[1]} but holds {absval.short(e)} of kind {kind_of(e)}")
+        if _erase_sizes(got[1]) != _erase_sizes(elkind): return ("declared-kind", f"declares element kind {got[1]}, expected {elkind}")
     return None
 
 def short_c(v):
@@ -171,10 +198,16 @@ class Session:
     def add(self, text, check, label, deps):
         self.stmts.append(text); self.checks.append((check, label, frozenset(deps)))
 
+    def set_text(self, seq, deps):
+        """source text of the set written as the sequence seq (a literal; for union-built kinds a chain of unions of singletons)"""
+        if self.k.union_built and len(seq) > 1:
+            return "(" + " ∪ ".join("{" + self.lit(i, deps) + "}" for i in seq) + ")"
+        return "{" + ", ".join(self.lit(i, deps) for i in seq) + "}"
+
     def define_literal(self, name, seq, model_set):
         """model_set: the set the written sequence denotes according to the TLA+ model (FromWritten)"""
         deps = set()
-        text = f"{name} := {{" + ", ".join(self.lit(i, deps) for i in seq) + "}"
+        text = f"{name} := " + self.set_text(seq, deps)
         self.vardeps[name] = deps
         want = [kind_value(self.k, i) for i in model_set]
         self.add(text, ("set", want, self.k.el), "literal", deps)
@@ -243,6 +276,8 @@ def matrix_define(k, name, seq, sess, deps, two_rows):
         return f"{name}<[{k.el}]:{r},{c}> := [{body}]"
     return f"{name} := [{body}]"
 
+SOURCE_EVERY = 1     # the operand-source dimension is rendered for every SOURCE_EVERY-th case (quick tier: 3)
+
 def build_session(cs, kname, n):
     k = KINDS[kname]
     s = Session(k, cs)
@@ -259,14 +294,16 @@ def build_session(cs, kname, n):
                 text = f"{WORD[which]}({lit}, A)" if word else f"{lit} {'∉' if neg else '∈'} A"
                 s.add(text, ("bool", cs["mem"][e - 1] != neg), WORD[which] if word else ("∉" if neg else "∈"), deps)
         # operand SOURCE dimension: the element held in a variable, the set written in place (the answer depends on the values only)
-        for e in range(1, min(cs["u"], k.n) + 1):
+        for e in (range(1, min(cs["u"], k.n) + 1) if n % SOURCE_EVERY == 0 else ()):
             deps = set(s.vardeps["A"])
             s.add(f"ev{e} := {s.lit(e, deps)}", ("setup",), "element-variable", deps)
+            nested = k.name in ("set", "setr") or k.union_built      # nested braces inside a call parse two orders of magnitude slower
             for fi, (ev, sl) in enumerate(((True, False), (True, True), (False, True))):
-                neg = (e + n + fi) % 2 == 1; word = (e + n // 2 + fi) % 2 == 1
+                if sl and k.union_built: continue                      # a union chain written in place: 0.5 s per statement
+                neg = (e + n + fi) % 2 == 1; word = (e + n // 2 + fi) % 2 == 1 and not (nested and sl)
                 d2 = set(deps)
                 el = f"ev{e}" if ev else s.lit(e, d2)
-                st = ("{" + ", ".join(s.lit(i, d2) for i in a) + "}") if sl else "A"
+                st = s.set_text(a, d2) if sl else "A"
                 which = "notin" if neg else "in"
                 text = f"{WORD[which]}({el}, {st})" if word else f"{el} {'∉' if neg else '∈'} {st}"
                 src = ("elem-var" if ev else "elem-lit") + "," + ("set-lit" if sl else "set-var")
@@ -302,11 +339,14 @@ def build_session(cs, kname, n):
             if word and op in WORD_FREE: chk = ("free",) + chk
             s.add(text, chk, label, deps)
             # operand SOURCE dimension: one or both operands written in place instead of held in a variable
+            if k.union_built or n % SOURCE_EVERY != 0: continue        # a union chain written in place: 0.5 s per statement
             form = (n + j) % 3
             d2 = set(deps)
-            la = ("{" + ", ".join(s.lit(i, d2) for i in a) + "}") if form in (0, 2) else "A"
-            lb = ("{" + ", ".join(s.lit(i, d2) for i in b) + "}") if form in (1, 2) else "B"
-            text2 = f"{WORD[op]}({la}, {lb})" if word else f"{la} {symb} {lb}"
+            nested = k.name in ("set", "setr")
+            la = s.set_text(a, d2) if form in (0, 2) else "A"
+            lb = s.set_text(b, d2) if form in (1, 2) else "B"
+            if word and nested: symb = SYM[op]
+            text2 = f"{WORD[op]}({la}, {lb})" if (word and not nested) else f"{la} {symb} {lb}"
             s.add(text2, chk, label + "/" + ["lit,var", "var,lit", "lit,lit"][form], d2)
         # operators applied to results of operators (the laws TLC checked on the model, replayed on the code)
         s.add("(A ∖ B) ∪ (A ∩ B)", ("set", [kind_value(k, i) for i in cs["A"]], k.el), "law:(A∖B)∪(A∩B)=A", deps)
@@ -351,7 +391,7 @@ def judge(rep, sess, resp, oc, tally, arms):
             continue
         if chk[0] == "setup": continue
         if chk[0] == "set":
-            bad = check_set(ev, chk[1], chk[2])
+            bad = check_set(ev, chk[1], chk[2], loose=k.union_built)
             if bad: fail(bad[0], bad[1])
             else: tally["exact"] += 1
         elif chk[0] == "bool":
@@ -373,6 +413,8 @@ def run(rep, tier, seed):
     cases.sort(key=lambda c: (c["fam"], len(c["a"]) + len(c["b"]), c["a"], c["b"]))
     log(f"[C14] TLC: {t.generated} states, {t.distinct} distinct, {len(cases)} cases in {t.wall:.1f}s")
     kinds = QUICK_KINDS if quick else THOROUGH_KINDS
+    global SOURCE_EVERY
+    SOURCE_EVERY = 3 if quick else 1
     plan = []      # (case, kind name, n)
     for n, cs in enumerate(cases):
         app = applicable_kinds(cs, kinds)
